@@ -1,5 +1,5 @@
 //@unit scan
-//@property C03,C17
+//@property C03
 // "Compiling any source text - valid, truncated, garbled ... or containing arbitrary Unicode - terminates ... it never
 // panics": the scanner half (yarel/src/scanner.rs, every function of `impl Scanner`). For every source text (any valid
 // UTF-8 String) and every scanner state reachable from `from_source`, `scan_token` returns: no `str` slice off a
